@@ -88,33 +88,21 @@ def commands(prog, rep, spec, tag):
     for var, code in spec["commands"].items():
         rep.ob(P, "code:%s%s" % (var, tag), got.get(var) == code, "Command::code(%s) == %d (ETG1000.4); extracted %s" % (var, code, got.get(var)), loc=b.span, how="table")
     rep.floor("C04 command codes" + tag, len(got), 11)
-    # pack
+    # pack: the four address bytes, evaluated symbolically per definition of the return value (byte k = which byte
+    # of which field of which variants), whatever the arithmetic: `(u32(reg) << 16) + u32(addr)` then to_le_bytes,
+    # or the two halves' to_le_bytes put side by side
     pk = prog.body("<Command as EtherCrabWireWriteSized>::pack")
-    pr = Prov(pk)
-    shl_ok = add_ok = False
-    for bi in sorted(pk.live_blocks()):
-        for s in pk.stmts(bi):
-            if s["k"] == "assign" and s["rv"]["k"] == "bin":
-                op = s["rv"]["op"].replace("WithOverflow", "")
-                a0, a1 = pr.of_operand(s["rv"]["a"][0]), pr.of_operand(s["rv"]["a"][1])
-                f0 = {x[2] for x in a0 if x[0] == "field"}
-                f1 = {x[2] for x in a1 if x[0] == "field"}
-                if op == "Shl" and q.const_int(s["rv"]["a"][1]) == 16 and "register" in f0 and "address" not in f0:
-                    shl_ok = True
-                if op == "Add" and has_root(a0, "binop", "Shl") and "address" in f1 and "register" not in f1:
-                    add_ok = True
-    les = [c for c in pk.calls() if (c.decl_s or "").endswith("::to_le_bytes")]
-    reg_le = [c for c in les if has_root(pr.of_operand(c.args[0]), "binop", "Add")]
-    log_le = [c for c in les if not has_root(pr.of_operand(c.args[0]), "binop", "Add")]
-    rep.ob(P, "pack:register-address" + tag, shl_ok and add_ok and len(reg_le) == 1, "register-addressed commands pack (u32(register) << 16) + u32(address), little endian", loc=pk.span, how="dataflow")
-    ok = len(log_le) == 1 and {x[2] for x in pr.of_operand(log_le[0].args[0]) if x[0] == "field"} >= {"address"} and "register" not in {x[2] for x in pr.of_operand(log_le[0].args[0]) if x[0] == "field"}
-    rep.ob(P, "pack:logical-address" + tag, ok, "logical commands pack the 32-bit address, little endian", loc=pk.span, how="dataflow")
-    # auto-increment negation
-    for fn in ("Command::aprd", "Command::apwr"):
-        bb = prog.body(fn)
-        ws = [c for c in bb.calls() if (c.decl_s or "").endswith("::wrapping_sub")]
-        ok = len(ws) == 1 and q.const_int(ws[0].args[0]) == 0 and has_root(Prov(bb).of_operand(ws[0].args[1]), "arg", 1)
-        rep.ob(P, "%s:negated-position%s" % (fn, tag), ok, "%s addresses position p as 0u16.wrapping_sub(p)" % fn, loc=bb.span, how="dataflow")
+    forms = _pack_forms(prog, pk)
+    reg_variants = {"Aprd", "Fprd", "Brd", "Frmw", "Apwr", "Fpwr", "Bwr"}
+    log_variants = {"Lrd", "Lwr", "Lrw"}
+    reg = [f for f in forms if f[0] == [("address", 0), ("address", 1), ("register", 0), ("register", 1)]]
+    log = [f for f in forms if f[0] == [("address", 0), ("address", 1), ("address", 2), ("address", 3)]]
+    other = [f for f in forms if f not in reg and f not in log and f[0] is not None and any(x != 0 for x in f[0])]
+    unknown = [f for f in forms if f[0] is None]
+    got_reg = set().union(*[f[1] for f in reg]) if reg else set()
+    got_log = set().union(*[f[1] for f in log]) if log else set()
+    rep.ob(P, "pack:register-address" + tag, got_reg == reg_variants and not other and not unknown, "register-addressed commands pack the station address in bytes 0..2 and the register in bytes 2..4, little endian (= (u32(register) << 16) + u32(address)); variants %s%s" % (sorted(got_reg), (" other layouts: %s" % other) if other or unknown else ""), loc=pk.span, how="dataflow")
+    rep.ob(P, "pack:logical-address" + tag, got_log == log_variants and not other and not unknown, "logical commands pack the 32-bit address, little endian; variants %s" % sorted(got_log), loc=pk.span, how="dataflow")
 
 
 def layouts(ctx, prog, rep, spec, tag):
@@ -205,6 +193,141 @@ def _push_facts(prog, fn):
     f["too_long"] = [x for g in prog.group(fn) for x in q.aggregates(g, "PduError", "TooLong")]
     f["patch"] = [c for c in b.calls() if (c.decl_s or "").endswith("pack_to_slice_unchecked") and "PduFlags" in (c.res_s or c.t.get("self_ty") or "")]
     return f
+
+
+def _pack_forms(prog, pk):
+    """-> [(bytes, variants)] for every definition of the returned [u8; 4]: bytes = list of (field, byte index) / 0,
+    or None when the evaluator cannot follow the computation; variants = the enum variants the fields were read from."""
+    W = {"u8": 1, "u16": 2, "u32": 4, "u64": 8, "usize": 8, "i32": 4}
+    variants = set()
+
+    def width_of(l):
+        return W.get(pk.local_ty(l).strip())
+
+    def ev_place(pl, depth):
+        fs = [p for p in pl["p"] if isinstance(p, dict) and "n" in p]
+        if fs:
+            last = [p for p in pl["p"] if p != "*"][-1]
+            if isinstance(last, dict) and "n" in last and last.get("ty") in W:
+                for p in pl["p"]:
+                    if isinstance(p, dict) and "dc" in p and p["dc"] not in ("Read", "Write"):
+                        variants.add(p["dc"])
+                return [(last["n"], k) for k in range(W[last["ty"]])]
+            return None
+        idx = [p for p in pl["p"] if p != "*"]
+        base = ev_local(pl["l"], depth + 1)
+        if not idx:
+            return base
+        if base is None:
+            return None
+        if len(idx) == 1 and isinstance(idx[0], dict):
+            p = idx[0]
+            if "cidx" in p or p.get("k") == "cidx" or "off" in p:
+                k = p.get("cidx", p.get("off"))
+                return [base[k]] if isinstance(k, int) and k < len(base) else None
+            if p.get("k") == "tuple" and p.get("f") == 0:
+                return base
+        return None
+
+    def ev_op(op, depth):
+        c = op.get("const")
+        if c is not None:
+            if isinstance(c.get("v"), int) and c.get("ty") in W:
+                return [(c["v"] >> (8 * k)) & 0xFF if ((c["v"] >> (8 * k)) & 0xFF) else 0 for k in range(W[c["ty"]])]
+            return None
+        pl = op_place(op)
+        return ev_place(pl, depth) if pl is not None else None
+
+    def comb(x, y):
+        if x is None or y is None or len(x) != len(y):
+            return None
+        out = []
+        for a, b_ in zip(x, y):
+            if a == 0:
+                out.append(b_)
+            elif b_ == 0:
+                out.append(a)
+            else:
+                return None
+        return out
+
+    def ev_local(l, depth=0):
+        if depth > 16:
+            return None
+        res = None
+        ds = pk.defs().get(l, [])
+        if not ds:
+            return None
+        for bi, si, kind, payload in ds:
+            v = None
+            if kind == "assign":
+                rv = payload["rv"]
+                if rv["k"] == "use":
+                    v = ev_op(rv["a"][0], depth + 1)
+                elif rv["k"] == "cast":
+                    x = ev_op(rv["a"][0], depth + 1)
+                    w = W.get(rv.get("to"))
+                    v = (x + [0] * w)[:w] if x is not None and w else None
+                elif rv["k"] == "bin":
+                    o = rv["op"].replace("WithOverflow", "")
+                    x = ev_op(rv["a"][0], depth + 1)
+                    if o in ("Shl", "Shr"):
+                        n = rv["a"][1].get("const", {}).get("v")
+                        if x is not None and isinstance(n, int) and n % 8 == 0:
+                            k = n // 8
+                            v = ([0] * k + x)[:len(x)] if o == "Shl" else (x[k:] + [0] * k)
+                    elif o in ("Add", "BitOr", "BitXor"):
+                        v = comb(x, ev_op(rv["a"][1], depth + 1))
+                elif rv["k"] == "agg" and rv.get("ak") == "array":
+                    parts = [ev_op(a, depth + 1) for a in rv["a"]]
+                    v = [p[0] for p in parts] if all(p is not None and len(p) == 1 for p in parts) else None
+            elif kind == "call":
+                c = payload
+                name = c.decl_s or ""
+                if name.endswith("::to_le_bytes") or name.endswith("::to_ne_bytes"):
+                    v = ev_op(c.args[0], depth + 1)
+                elif name.endswith("::to_be_bytes"):
+                    x = ev_op(c.args[0], depth + 1)
+                    v = list(reversed(x)) if x is not None else None
+                elif name in ("From::from", "Into::into") or name.endswith(" as From>::from"):
+                    x = ev_op(c.args[0], depth + 1)
+                    w = width_of(c.dest["l"])
+                    v = (x + [0] * w)[:w] if x is not None and w else None
+                elif name.endswith("EtherCrabWireSized::buffer"):
+                    v = [0, 0, 0, 0]
+            if v is None:
+                return None
+            if res is None:
+                res = v
+            elif res != v:
+                return "multi"
+        return res
+
+    forms = []
+    for bi, si, kind, payload in pk.defs().get(0, []):
+        variants.clear()
+        v = None
+        if kind == "call":
+            c = payload
+            name = c.decl_s or ""
+            if name.endswith("::to_le_bytes"):
+                v = ev_op(c.args[0], 0)
+            elif name.endswith("::to_be_bytes"):
+                x = ev_op(c.args[0], 0)
+                v = list(reversed(x)) if x is not None else None
+            elif name.endswith("EtherCrabWireSized::buffer"):
+                v = [0, 0, 0, 0]
+        elif kind == "assign":
+            rv = payload["rv"]
+            if rv["k"] == "use":
+                v = ev_op(rv["a"][0], 0)
+            elif rv["k"] == "agg" and rv.get("ak") == "array":
+                parts = [ev_op(a, 0) for a in rv["a"]]
+                v = [p[0] for p in parts] if all(p is not None and p != "multi" and len(p) == 1 for p in parts) else None
+        if v == "multi":
+            v = None
+        forms.append((v, set(variants)))
+    return forms
 
 
 def _lb_packed_len(prog, b, op, depth=0):
